@@ -1,0 +1,88 @@
+//go:build verif
+
+package numberenc
+
+// Contracts for /verif (gvc). Comment-only file; see /verif/DESIGN.md §5 C07 (layer 1: leaf codecs).
+// All functions here are verified in bit-vector mode: Go's wraparound, shifts and byte truncation are exact.
+
+//@ prop C07
+
+//@ spec func dec16(s []byte, o int) uint16 = uint16(s[o])<<8 | uint16(s[o+1])
+//@ spec func dec32(s []byte, o int) uint32 = uint32(s[o])<<24 | uint32(s[o+1])<<16 | uint32(s[o+2])<<8 | uint32(s[o+3])
+//@ spec func dec64(s []byte, o int) uint64 = uint64(s[o])<<56 | uint64(s[o+1])<<48 | uint64(s[o+2])<<40 | uint64(s[o+3])<<32 | uint64(s[o+4])<<24 | uint64(s[o+5])<<16 | uint64(s[o+6])<<8 | uint64(s[o+7])
+//@ spec func zz(v int64) uint64 = uint64((v << 1) ^ (v >> 63))
+//@ spec func unzz(u uint64) int64 = int64(u >> 1) ^ (int64(u << 63) >> 63)
+//@ spec func prefix_kept(r []byte, d []byte) bool = forall i int :: 0 <= i && i < len(d) ==> r[i] == old(d[i])
+
+//@ lemma zigzag_roundtrip(v int64)
+//@   mode bv
+//@   ensures unzz(zz(v)) == v
+
+//@ lemma zigzag_roundtrip_rev(u uint64)
+//@   mode bv
+//@   ensures zz(unzz(u)) == u
+
+//@ func MarshalUint16Append
+//@   mode bv
+//@   ensures len(result) == len(dst) + 2 && prefix_kept(result, dst)
+//@   ensures dec16(result, len(dst)) == u
+
+//@ func UnmarshalUint16
+//@   mode bv
+//@   requires len(src) >= 2
+//@   ensures result == dec16(src, 0)
+//@   assigns nothing
+
+//@ func MarshalUint32Append
+//@   mode bv
+//@   ensures len(result) == len(dst) + 4 && prefix_kept(result, dst)
+//@   ensures dec32(result, len(dst)) == u
+
+//@ func UnmarshalUint32
+//@   mode bv
+//@   requires len(src) >= 4
+//@   ensures result == dec32(src, 0)
+//@   assigns nothing
+
+//@ func MarshalUint64Append
+//@   mode bv
+//@   ensures len(result) == len(dst) + 8 && prefix_kept(result, dst)
+//@   ensures dec64(result, len(dst)) == u
+
+//@ func UnmarshalUint64
+//@   mode bv
+//@   requires len(src) >= 8
+//@   ensures result == dec64(src, 0)
+//@   assigns nothing
+
+//@ func MarshalInt64Append
+//@   mode bv
+//@   ensures len(result) == len(dst) + 8 && prefix_kept(result, dst)
+//@   ensures dec64(result, len(dst)) == zz(v)
+
+//@ func UnmarshalInt64
+//@   mode bv
+//@   requires len(src) >= 8
+//@   ensures result == unzz(dec64(src, 0))
+//@   assigns nothing
+
+//@ func MarshalFloat64
+//@   mode bv
+//@   ensures len(result) == len(dst) + 8 && prefix_kept(result, dst)
+//@   ensures dec64(result, len(dst)) == f64bits(f)
+
+//@ func UnmarshalFloat64
+//@   mode bv
+//@   requires len(src) >= 8
+//@   ensures f64bits(result) == dec64(src, 0)
+//@   assigns nothing
+
+//@ func MarshalBool
+//@   mode bv
+//@   ensures len(result) == len(dst) + 1 && prefix_kept(result, dst)
+//@   ensures (result[len(dst)] == 1) == b
+
+//@ func UnmarshalBool
+//@   mode bv
+//@   ensures result == (b == 1)
+//@   assigns nothing
